@@ -186,16 +186,49 @@ Proof.
     unfold abs in Habs. destruct (cf_init window st') eqn:E; [discriminate|]. injection Habs as Hd. auto.
 Qed.
 
+(* a sent ping / pong (never compressed, at most 125 bytes) is delivered to the matching callback and leaves the
+   receiver's reassembly state and window exactly as they were *)
+Lemma recv_sent_ctl rc st server op key payload rest :
+  (op = 9 \/ op = 10) -> length key = 4%nat -> wf_bytes key -> wf_bytes payload ->
+  (length payload <= 125)%nat -> limit_ok rc -> st_ok window st ->
+  r_server rc = negb server -> (Z.of_nat (length payload) <= r_limit rc)%Z ->
+  exists st', read_message rc st (encode_frame LShortest (out_frame server true false op key payload) ++ rest)
+              = SCont _ [if op =? 9 then EvPing payload else EvPong payload] st' rest
+    /\ abs window st' = abs window st /\ st_ok window st'.
+Proof.
+  intros Hop Hk Hkw Hpw Hsmall Hc Hst Hrole Hsz.
+  set (f := out_frame server true false op key payload).
+  assert (Hwf : frame_wf f) by (apply out_frame_wf; try assumption; destruct Hop; subst; lia).
+  assert (Hn : N.of_nat (length (f_payload f)) < 2 ^ 63) by (subst f; cbn; lia).
+  pose proof (read_message_refines utf8_valid inflate window sw_dict wwrite_total rc st LShortest f rest Hwf I Hn Hc Hst) as R.
+  assert (Hnil : violations window (scfg_of rc) (abs window st) f (minimal_of LShortest (N.of_nat (length (f_payload f)))) = []).
+  { unfold violations. subst f. unfold out_frame. cbn [f_masked f_rsv1 f_rsv2 f_rsv3 f_op f_fin f_payload scfg_of s_server s_pmd s_limit minimal_of].
+    rewrite Hrole. rewrite Bool.eqb_reflx. cbn [orb andb negb].
+    assert (Hk0 : op_known op = true) by (destruct Hop as [-> | ->]; reflexivity).
+    assert (Hctl : is_control op = true) by (destruct Hop as [-> | ->]; reflexivity).
+    rewrite Hk0, Hctl. cbn [andb orb negb].
+    replace (op =? 0) with false by (destruct Hop as [-> | ->]; reflexivity).
+    replace (op =? 1) with false by (destruct Hop as [-> | ->]; reflexivity).
+    replace (op =? 2) with false by (destruct Hop as [-> | ->]; reflexivity). cbn [andb orb].
+    replace (125 <? Z.of_nat (length payload))%Z with false by lia.
+    replace (r_limit rc <? Z.of_nat (length payload))%Z with false by lia. reflexivity. }
+  unfold Rfc6455Recv.recv_frame in R. rewrite Hnil in R. subst f. unfold out_frame in R. cbn [f_op f_payload] in R.
+  destruct Hop as [-> | ->]; cbn in R; destruct R as (st' & Hr & Habs & Hok); exists st'; auto.
+Qed.
+
 (* ---- C01: end-to-end fidelity for one direction *)
 Definition msg_ok (rc : rcfg) (o : sop) : Prop :=
   let '(op, slices, key) := o in
-  (op = 1 \/ op = 2) /\ length key = 4%nat /\ wf_bytes key /\ wf_bytes (concat slices)
+  length key = 4%nat /\ wf_bytes key /\ wf_bytes (concat slices)
   /\ (Z.of_nat (length (concat slices)) <= r_limit rc)%Z                                              (* the message fits the receiver's limit *)
-  /\ (forall d, (Z.of_nat (length (strip_tail (deflate_raw d (concat slices)))) <= r_limit rc)%Z)      (* ... also on the wire if compressed *)
-  /\ (r_utf8 rc && (op =? 1) && negb (utf8_valid (concat slices))) = false.                           (* text accepted by the receiver's check *)
+  /\ (((op = 1 \/ op = 2)
+       /\ (forall d, (Z.of_nat (length (strip_tail (deflate_raw d (concat slices)))) <= r_limit rc)%Z)   (* ... also on the wire if compressed *)
+       /\ (r_utf8 rc && (op =? 1) && negb (utf8_valid (concat slices))) = false)                        (* text accepted by the receiver's check *)
+      \/ ((op = 9 \/ op = 10) /\ (length (concat slices) <= 125)%nat)).                                 (* ping / pong within the control-frame limit *)
 
 Definition delivered (ops : list sop) : list event :=
-  map (fun o : sop => let '(op, slices, _) := o in EvMsg op (concat slices)) ops.
+  map (fun o : sop => let '(op, slices, _) := o in
+         if op =? 9 then EvPing (concat slices) else if op =? 10 then EvPong (concat slices) else EvMsg op (concat slices)) ops.
 
 Theorem fidelity c rc :
   r_server rc = negb (w_server c) -> r_pmd rc = w_pmd c -> limit_ok rc ->
@@ -211,36 +244,50 @@ Proof.
     cbn [EndToEnd.send_all delivered map] in *.
   - injection H as <- <-. destruct fuel as [|fuel]; [cbn in Hf; lia|]. cbn.
     exists st. repeat split; auto.
-  - inversion Hall as [|? ? Hhd Hall']; subst. cbn in Hhd. destruct Hhd as (Hop & Hk & Hkw & Hp & Hlim & Hwire & Hu).
+  - inversion Hall as [|? ? Hhd Hall']; subst. cbn in Hhd. destruct Hhd as (Hk & Hkw & Hp & Hlim & Hkind).
     destruct (send_one c (r_dps window st) op slices key) as [[[fr|] w1] res] eqn:E; try discriminate.
     destruct res; try discriminate.
     destruct (send_all c w1 r) as [[bs' w2]|] eqn:E2; [|discriminate]. injection H as <- <-.
-    assert (Hop16 : op < 16) by (destruct Hop; subst; lia).
+    assert (Hop16 : op < 16) by (destruct Hkind as [([-> | ->] & _) | ([-> | ->] & _)]; lia).
     assert (Hn : (Z.of_nat (length (concat slices)) < 2 ^ 63)%Z) by (destruct Hc as (_ & Hc1); lia).
     destruct (send_one_shape c _ op slices key fr w1 Hop16 Hk Hkw Hp Hn E) as (rsv1 & payload & -> & _ & Hpw & H0 & H1).
     destruct fuel as [|fuel]; [lia|]. cbn [Reader.read_stream].
     assert (Hmsg : exists st1, read_message rc st (encode_frame LShortest (out_frame (w_server c) true rsv1 op key payload) ++ bs')
-                               = SCont _ [EvMsg op (concat slices)] st1 bs' /\ cf_init _ st1 = false /\ r_dps _ st1 = w1).
-    { destruct rsv1.
-      - destruct (H1 eq_refl) as (Hcp & _ & -> & ->).
-        set (z := strip_tail (deflate_raw (sw_dict (r_dps window st)) (concat slices))) in *.
-        assert (A1 : wf_bytes z) by (apply strip_tail_wf; apply deflate_wf).
-        assert (A2 : N.of_nat (length z) < 2 ^ 63).
-        { pose proof (strip_tail_len (deflate_raw (sw_dict (r_dps window st)) (concat slices))).
-          specialize (deflate_small (sw_dict (r_dps window st)) (concat slices)). subst z. lia. }
-        assert (A3 : true = true -> r_pmd rc = true) by (intros _; rewrite Hpmd; exact Hcp).
-        assert (A4 : (Z.of_nat (length z) <= r_limit rc)%Z) by apply Hwire.
-        assert (A5 : inflate (sw_dict (r_dps window st)) (z ++ flate_tail9) (r_limit rc) = Some (concat slices)) by (apply H_flate; exact Hlim).
-        destruct (recv_sent_data rc st (w_server c) true op key z (concat slices) bs' Hop Hk Hkw A1 A2 Hc Hinit Hrole A3 A4 A5 Hu)
-          as (st1 & Hr & Hi & Hd).
-        exists st1. split; [exact Hr|]. split; [exact Hi|]. rewrite Hd.
-        symmetry. apply (fold_wwrite_concat slices (r_dps window st) hist). exact Hinv.
-      - destruct (H0 eq_refl) as (-> & ->).
-        assert (A2 : N.of_nat (length (concat slices)) < 2 ^ 63) by lia.
-        assert (A3 : false = true -> r_pmd rc = true) by discriminate.
-        destruct (recv_sent_data rc st (w_server c) false op key (concat slices) (concat slices) bs' Hop Hk Hkw Hp A2 Hc Hinit Hrole A3 Hlim eq_refl Hu)
-          as (st1 & Hr & Hi & Hd).
-        exists st1. auto. }
+                               = SCont _ [if op =? 9 then EvPing (concat slices) else if op =? 10 then EvPong (concat slices) else EvMsg op (concat slices)] st1 bs'
+                               /\ cf_init _ st1 = false /\ r_dps _ st1 = w1).
+    { destruct Hkind as [(Hop & Hwire & Hu) | (Hop & Hsmall)].
+      - (* data message *)
+        replace (op =? 9) with false by (destruct Hop; subst; reflexivity).
+        replace (op =? 10) with false by (destruct Hop; subst; reflexivity).
+        destruct rsv1.
+        + destruct (H1 eq_refl) as (Hcp & _ & -> & ->).
+          set (z := strip_tail (deflate_raw (sw_dict (r_dps window st)) (concat slices))) in *.
+          assert (A1 : wf_bytes z) by (apply strip_tail_wf; apply deflate_wf).
+          assert (A2 : N.of_nat (length z) < 2 ^ 63).
+          { pose proof (strip_tail_len (deflate_raw (sw_dict (r_dps window st)) (concat slices))).
+            specialize (deflate_small (sw_dict (r_dps window st)) (concat slices)). subst z. lia. }
+          assert (A3 : true = true -> r_pmd rc = true) by (intros _; rewrite Hpmd; exact Hcp).
+          assert (A4 : (Z.of_nat (length z) <= r_limit rc)%Z) by apply Hwire.
+          assert (A5 : inflate (sw_dict (r_dps window st)) (z ++ flate_tail9) (r_limit rc) = Some (concat slices)) by (apply H_flate; exact Hlim).
+          destruct (recv_sent_data rc st (w_server c) true op key z (concat slices) bs' Hop Hk Hkw A1 A2 Hc Hinit Hrole A3 A4 A5 Hu)
+            as (st1 & Hr & Hi & Hd).
+          exists st1. split; [exact Hr|]. split; [exact Hi|]. rewrite Hd.
+          symmetry. apply (fold_wwrite_concat slices (r_dps window st) hist). exact Hinv.
+        + destruct (H0 eq_refl) as (-> & ->).
+          assert (A2 : N.of_nat (length (concat slices)) < 2 ^ 63) by lia.
+          assert (A3 : false = true -> r_pmd rc = true) by discriminate.
+          destruct (recv_sent_data rc st (w_server c) false op key (concat slices) (concat slices) bs' Hop Hk Hkw Hp A2 Hc Hinit Hrole A3 Hlim eq_refl Hu)
+            as (st1 & Hr & Hi & Hd).
+          exists st1. auto.
+      - (* ping / pong: never compressed *)
+        destruct rsv1.
+        + destruct (H1 eq_refl) as (_ & Hd & _). exfalso. unfold is_data in Hd. destruct Hop; subst; discriminate.
+        + destruct (H0 eq_refl) as (-> & ->).
+          assert (Hst : st_ok window st) by (unfold st_ok; rewrite Hinit; discriminate).
+          destruct (recv_sent_ctl rc st (w_server c) op key (concat slices) bs' Hop Hk Hkw Hp Hsmall Hc Hst Hrole Hlim) as (st1 & Hr & Habs & _).
+          exists st1. split; [rewrite Hr; destruct Hop as [-> | ->]; reflexivity|].
+          unfold abs in Habs. rewrite Hinit in Habs. destruct (cf_init window st1) eqn:E1; [discriminate|].
+          injection Habs as Hd. auto. }
     destruct Hmsg as (st1 & -> & Hi1 & Hd1).
     assert (Hinv1 : exists h1, win_inv w1 h1).
     { destruct rsv1.
